@@ -236,6 +236,17 @@ def chunkSeriesIter : List (List Pt) → List Pt
   | [] => []
   | c :: cs => csChunkOut c [] ++ csRest (chunkAtT c) [] cs
 
+/-- dedup.boundedSeriesIterator(it, mint, maxt) drained with Next over the samples `it` yields:
+    a sample before `mint` makes it `Seek(mint)` (the inner Seek calls Next until `AtT() ≥ mint`),
+    the first sample beyond `maxt` ends the iteration ("once we passed the valid interval, there is
+    no going back") -/
+def boundedDrain (mint maxt : Int) : List Pt → List Pt
+  | [] => []
+  | (t, v) :: rest =>
+    if t < mint then boundedDrain mint maxt rest
+    else if t ≤ maxt then (t, v) :: boundedDrain mint maxt rest
+    else []
+
 /-! ### downsampling aggregate chunks -/
 
 /-- expandXorChunkIterator on the samples of one sub-chunk: samples that go back in time are
